@@ -74,6 +74,16 @@ impl<'s, M: Matcher, S: Sink> Core<'s, M, S> {
         self.pos
     }
 
+    /// Verification hook: shrink the binary sniffing window of the slice
+    /// strategies to the configured roll buffer capacity.
+    #[cfg(ripgrep_verif)]
+    pub(crate) fn verif_window(&self, upto: usize) -> usize {
+        match self.config.verif_capacity {
+            Some(capacity) => std::cmp::min(upto, capacity),
+            None => upto,
+        }
+    }
+
     pub(crate) fn set_pos(&mut self, pos: usize) {
         self.pos = pos;
     }
